@@ -22,7 +22,7 @@ LEVEL = "exploration"
 RULE = (
     "(zone, local date-time) with local values generated from the zone's transitions: for every transition T with "
     "offsets (o1, o2): T+o1+d and T+o2+d for d in {0, +/-1ns, +/-1s, +/-1h, +/-|o2-o1|/2, +/-1day}; quick covers all "
-    "stored transitions of every canonical zone plus sampled tail years, thorough every transition through 9999; "
+    "stored transitions of every canonical zone plus sampled tail years, thorough every transition through 2100, every 10th year after that and the last five years; "
     "plus Hypothesis-generated uniform local date-times, fixed zones and non-ISO calendars. Oracle = set of "
     "intervals iv with iv.start+wall <= L < iv.end+wall. Non-trivial: L within one day of a transition or count != 1; "
     "distinct = (zone, L) by construction per transition probe, case hash otherwise."
@@ -245,7 +245,16 @@ def task_transitions(ctx: Ctx, ids: list[str], thorough: bool, years: list[int])
         idxs = list(range(1, min(len(ivs), nstored + 1)))
         if len(ivs) > nstored:
             if thorough:
-                idxs = list(range(1, len(ivs)))
+                # every transition through 2100, then every 10th year (seed-chosen residue: all weekday alignments of
+                # the yearly rules are met) and the last five years
+                r = sub_seed(ctx.seed, "c05t", zid) % 10
+                cut = bisect.bisect_left(starts, Z.year_start_ns(2101))
+                idxs = list(range(1, min(len(ivs), cut)))
+                for y in [yy for yy in range(2101, 9995) if yy % 10 == r] + list(range(9995, 10000)):
+                    a = bisect.bisect_left(starts, Z.year_start_ns(y))
+                    b = bisect.bisect_left(starts, Z.year_start_ns(y + 1) if y < 9999 else Z.INST_MAX)
+                    idxs += list(range(max(1, a), b))
+                idxs = sorted(set(idxs))
             else:
                 for y in years:
                     a = bisect.bisect_left(starts, Z.year_start_ns(y))
